@@ -14,7 +14,7 @@ RULE = ("each case: disk capacity, reserved_space and read-only flag are drawn, 
         "equals the model. Non-trivial = an allocation request that does not fit completely (some or all buckets must be refused); distinct by case.")
 LEVEL_TEXT = "Random histories on a simulated disk; the over-commit invariant is evaluated against the space the server itself could observe at that moment."
 ASSUMPTIONS = ["fileutil.get_disk_stats is replaced by a simulated disk whose 'used' figure is the real size of the files under the storage directory"]
-REQUIRED_CLASSES = ["partial-grant", "refused-all", "readonly", "released-by-close", "released-by-abort", "multi-share-request"]
+REQUIRED_CLASSES = ["partial-grant", "refused-all", "readonly", "released-by-close", "released-by-abort", "released-by-timeout", "multi-share-request"]
 BUDGET = {"quick": 600, "thorough": 3600}
 
 
@@ -31,6 +31,7 @@ def cases():
         st.tuples(st.just("close"), st.integers(0, 40), st.just(0), st.just(0), st.just(0)),
         st.tuples(st.just("abort"), st.integers(0, 40), st.just(0), st.just(0), st.just(0)),
         st.tuples(st.just("disconnect"), st.integers(0, 1), st.just(0), st.just(0), st.just(0)),
+        st.tuples(st.just("stall"), st.sampled_from([60, 1000, 1799, 1800, 1801, 4000]), st.just(0), st.just(0), st.just(0)),
     )
     return st.fixed_dictionaries({"capacity": st.integers(0, 20000) | st.sampled_from([0, 5000, 10000]), "reserved": st.integers(0, 6000) | st.just(0),
                                   "readonly": st.sampled_from([False, False, False, True]), "ops": st.lists(op, min_size=1, max_size=30)})
@@ -95,6 +96,7 @@ def run_case(case, ctx):
                 if not cand:
                     continue
                 u = cand[op[1] % len(cand)]
+                u["idle"] = 0
                 try:
                     if kind == "fill":
                         ln = max(1, u["size"] * (1 + op[2]) // 101)
@@ -114,6 +116,19 @@ def run_case(case, ctx):
                 except Exception as e:
                     ctx.fail("op-raised", "%s: %r" % (what, e))
                     return
+            elif kind == "stall":
+                # nobody touches the open uploads for a while: after 30 minutes without activity the server itself aborts them
+                for u in open_ups():
+                    u["idle"] = u.get("idle", 0) + op[1]
+                try:
+                    boot.R.advance(op[1])
+                except Exception as e:
+                    ctx.fail("timeout-raised", "%s: advancing the clock by %d s raised %r" % (what, op[1], e))
+                    return
+                for u in open_ups():
+                    if u["idle"] >= 1800:
+                        u["state"] = "timed-out"
+                        classes.add("released-by-timeout")
             elif kind == "disconnect":
                 ci = op[1]
                 for u in open_ups():
